@@ -108,6 +108,16 @@ inline std::string crash_mode(const std::string& err, int status)
 // will ever release: the child then sleeps for good and looks like a hanging case.  fix8's global logger starts a thread
 // when it is first touched, so it must only be touched in the children (child_init), and every fork site checks that the
 // parent is still single-threaded (exit 2 = no verdict, never a wrong one).
+// No process of a forkbatch harness ever has a second thread: fix8 creates threads (the global logger's) through
+// pthread_create, which is answered here without starting anything — the same legal, maximally unfair schedule the sim runtime
+// uses (engines/sim/sim.cpp).  Children fork grandchildren (one per encoder case), so "only the parent is single-threaded"
+// would not be enough.  Logger::stop() joins: the join of a thread that never ran returns at once.
+extern "C" {
+int pthread_create(pthread_t *t, const pthread_attr_t *, void *(*)(void *), void *) { static unsigned long n = 0; *t = (pthread_t)(0x51300000UL + ++n); return 0; }
+int pthread_join(pthread_t, void **r) { if (r) *r = 0; return 0; }
+int pthread_detach(pthread_t) { return 0; }
+}
+
 inline int thread_count()
 {
 	int n = 0; FILE *f = fopen("/proc/self/status", "r"); if (!f) return 1;
